@@ -87,6 +87,8 @@ def _batch(modname, base_seed, tier, indices, explicit=None):
             sh = r.get("shape")
             if sh is not None:
                 out["shapes"].add(json.dumps(sh, sort_keys=True))
+            for sh in r.get("shapes") or []:
+                out["shapes"].add(json.dumps(sh, sort_keys=True))
             for k, v in r.get("counters", {}).items():
                 out["counters"][k] = out["counters"].get(k, 0) + v
             out["sim_s"] += r.get("sim_s", 0.0)
